@@ -150,11 +150,30 @@ where
     }
 }
 
+/// Verification hook (only with --cfg chialisp_verif): a numbered crash point.
+/// Aborts the process when the number equals $CHIALISP_VERIF_CRASH_AT, otherwise
+/// appends the number to the file named by $CHIALISP_VERIF_CRASH_LOG (if set).
+#[cfg(chialisp_verif)]
+pub fn verif_crash_point(n: u32) {
+    if let Ok(v) = std::env::var("CHIALISP_VERIF_CRASH_AT") {
+        if v.trim().parse::<u32>().ok() == Some(n) {
+            std::process::abort();
+        }
+    }
+    if let Ok(p) = std::env::var("CHIALISP_VERIF_CRASH_LOG") {
+        if let Ok(mut f) = fs::OpenOptions::new().create(true).append(true).open(p) {
+            let _ = writeln!(f, "{n}");
+        }
+    }
+}
+
 pub fn atomic_write_file(
     input_path: &str,
     output_path: &str,
     target_data: &str,
 ) -> Result<(), String> {
+    #[cfg(chialisp_verif)]
+    verif_crash_point(1);
     let output_path_obj = Path::new(output_path);
     let output_dir = output_path_obj
         .parent()
@@ -166,6 +185,8 @@ pub fn atomic_write_file(
     let mut temp_output_file = NamedTempFile::new_in(output_dir)
         .map_err(|e| format!("error creating temporary compiler output for {input_path}: {e:?}"))?;
 
+    #[cfg(chialisp_verif)]
+    verif_crash_point(2);
     let err_text = format!("failed to write to {:?}", temp_output_file.path());
     let translate_err = |_| err_text.clone();
 
@@ -173,10 +194,14 @@ pub fn atomic_write_file(
         .write_all(target_data.as_bytes())
         .map_err(translate_err)?;
 
+    #[cfg(chialisp_verif)]
+    verif_crash_point(3);
     temp_output_file
         .persist(output_path)
         .map_err(|e| format!("error persisting temporary compiler output {output_path}: {e:?}"))?;
 
+    #[cfg(chialisp_verif)]
+    verif_crash_point(4);
     Ok(())
 }
 
@@ -185,7 +210,11 @@ pub fn gentle_overwrite(
     output_path: &str,
     target_data: &str,
 ) -> Result<(), String> {
+    #[cfg(chialisp_verif)]
+    verif_crash_point(10);
     if let Ok(prev_content) = fs::read_to_string(output_path) {
+        #[cfg(chialisp_verif)]
+        verif_crash_point(11);
         let prev_trimmed = prev_content.trim();
         let trimmed = target_data.trim();
         if prev_trimmed == trimmed {
@@ -195,6 +224,8 @@ pub fn gentle_overwrite(
             // date to be updated.
             atomic_write_file(input_path, output_path, target_data).ok();
 
+            #[cfg(chialisp_verif)]
+            verif_crash_point(12);
             // It's the same program, bail regardless.
             return Ok(());
         }
